@@ -19,8 +19,8 @@ CONFIGS = {
 REPO_TUS = {'gbf': 'goldilocks_base_field.cpp', 'gce': 'goldilocks_cubic_extension.cpp',
             'ntt': 'ntt_goldilocks.cpp', 'pos': 'poseidon_goldilocks.cpp'}
 CENSUS_HDRS = ['goldilocks_base_field.hpp', 'goldilocks_base_field_tools.hpp', 'goldilocks_base_field_scalar.hpp',
-               'goldilocks_cubic_extension.hpp', 'poseidon_goldilocks.hpp', 'ntt_goldilocks.hpp']
-CENSUS_CLASSES = ('Goldilocks', 'Goldilocks3', 'PoseidonGoldilocks')
+               'goldilocks_cubic_extension.hpp', 'poseidon_goldilocks.hpp', 'ntt_goldilocks.hpp', 'merklehash_goldilocks.hpp']
+CENSUS_CLASSES = ('Goldilocks', 'Goldilocks3', 'PoseidonGoldilocks', 'MerklehashGoldilocks')
 
 
 def run(cmd, **kw):
